@@ -378,6 +378,10 @@ def itp_observation(parsed, sect_arity):
     for sect, rows in parsed["sections"].items():
         if sect == "#":
             continue
+        if sect not in sect_arity:
+            # a section the generator never writes (only reachable when foreign definitions leak in): raw tokens
+            sections[sect] = [[list(tokens), []] for tokens in rows]
+            continue
         k = sect_arity.get(sect)
         for tokens in rows:
             n = len(tokens) if k is None else k
